@@ -239,7 +239,12 @@ def build():
         ],
         "checks": checks,
         "notes": "Entry point ./check <ID> quick|thorough [--replay path]; AUDITOK_REPO selects the tree under test (default /repo). "
-                 "Exit 0 held / 1 VIOLATION / 2 machinery error. known_findings.txt lists open and fixed findings.",
+                 "Exit 0 held / 1 VIOLATION / 2 machinery error. known_findings.txt lists open and fixed findings (five genuine defects of the pinned tree, "
+                 "all repaired by fix: commits 1da95fc, ee34457, 5d5196e, 2aded39, b70ba7d in /repo; tools/revert_check.sh shows each is reported again when "
+                 "reverted). Beyond the 20 listed properties the same machinery carries six extra checks that are not claimed here (./check X01 .. X06: microphone / "
+                 "player, export files and converter chain, processing log, command-line side effects, io.py decision tables, a failing source), see DESIGN.md 11.2/9. "
+                 "Observations that are not violations of a listed property are O1-O13 in DESIGN.md 11.3. seeded/ holds 146 independently written, confirmed "
+                 "bug-introducing changes and 28 behaviour-preserving ones with what each check said about them (DESIGN.md 13).",
         "not_applicable": na,
     }
     with open(os.path.join(VERIF, "MANIFEST.json"), "w") as f:
